@@ -388,12 +388,124 @@ async fn connects(r: &mut Rng) -> (String, String) {
     (sig, "ok".into())
 }
 
+/// C11 over a forwarding hop: origin A --(connection 1)--> forwarder B (`chmux::Receiver::forward`) --(connection 2)--> C.
+/// C closes gracefully while messages are under way and the forwarder is back-pressured by C's small buffers; every message
+/// whose send completed at A must still reach C, then end-of-stream; A's later sends fail gracefully.
+async fn closing_forward(r: &mut Rng) -> (String, String) {
+    let c1a = cfg(r, None);
+    let mut c1b = cfg(r, None);
+    let mut c2b = cfg(r, None);
+    let mut c2c = cfg(r, None);
+    c1b.receive_buffer = *r.pick(&[16u32, 64, 1024]);
+    c2b.max_ports = 100;
+    c2c.receive_buffer = *r.pick(&[4u32, 8, 16, 64]);
+    c2c.chunk_size = *r.pick(&[4u32, 8, 64]);
+    let mut p1 = conn::connect(c1a, c1b).await;
+    let mut p2 = conn::connect(c2b, c2c).await;
+    let ((mut tx_a, _ra), (_tb, mut rx_b)) = conn::open_port(&mut p1).await;
+    let ((mut tx_b2, _rb2), (_tc, mut rx_c)) = conn::open_port(&mut p2).await;
+    let n = r.range(4, 24) as usize;
+    let pos = r.below(n as u64 / 2 + 1) as usize;
+    let msgs: Vec<Vec<u8>> = (0..n).map(|i| vec![i as u8; r.range(1, 24) as usize]).collect();
+    let sig = format!("closing:forward:n{}:pos{}", n.min(4), pos.min(4));
+    let fwd = tokio::spawn(async move { rx_b.forward(&mut tx_b2).await.map_err(|e| e.to_string()) });
+    let (stx, mut srx) = tokio::sync::mpsc::unbounded_channel::<(usize, Result<(), SendError>)>();
+    let to_send = msgs.clone();
+    let sender_task = tokio::spawn(async move {
+        for (i, m) in to_send.into_iter().enumerate() {
+            let res = tx_a.send(Bytes::from(m)).await;
+            let failed = res.is_err();
+            let _ = stx.send((i, res));
+            if failed {
+                break;
+            }
+        }
+        drop(tx_a);
+    });
+    let mut got: Vec<Vec<u8>> = Vec::new();
+    let mut eos = false;
+    let mut closed_called = false;
+    for _ in 0..4000 {
+        quiesce().await;
+        if got.len() >= pos && !closed_called {
+            closed_called = true;
+            rx_c.close().await;
+        }
+        // the closed receiver takes one message per round: the forwarder stays back-pressured
+        match rx_c.recv_any().now_or_never() {
+            Some(Ok(Some(Received::Data(d)))) => got.push(d.into()),
+            Some(Ok(Some(Received::Chunks))) => {
+                let mut b = Vec::new();
+                loop {
+                    quiesce().await;
+                    match rx_c.recv_chunk().now_or_never() {
+                        Some(Ok(Some(c))) => b.extend_from_slice(&c),
+                        Some(Ok(None)) => {
+                            got.push(b);
+                            break;
+                        }
+                        Some(Err(_)) => break,
+                        None => {
+                            if sender_task.is_finished() && fwd.is_finished() {
+                                break;
+                            }
+                        }
+                    }
+                }
+            }
+            Some(Ok(Some(Received::Requests(_)))) => {}
+            Some(Ok(None)) => {
+                eos = true;
+                break;
+            }
+            Some(Err(_)) => return (sig, "FAIL: C11 receive error at the final receiver of a forwarded channel on healthy connections".into()),
+            None => {}
+        }
+    }
+    for _ in 0..4 {
+        quiesce().await;
+    }
+    let mut results: Vec<(usize, Result<(), SendError>)> = Vec::new();
+    while let Ok(x) = srx.try_recv() {
+        results.push(x);
+    }
+    let ok_count = results.iter().filter(|(_, r)| r.is_ok()).count();
+    for (i, g) in got.iter().enumerate() {
+        if i >= msgs.len() || *g != msgs[i] {
+            return (sig, format!("FAIL: C11 message {i} received over the forwarded channel differs from what was sent"));
+        }
+    }
+    if !sender_task.is_finished() {
+        return (sig, "FAIL: C11 the origin sender neither completed nor failed after the final receiver closed".into());
+    }
+    if !eos {
+        return (sig, format!("FAIL: C11 the final receiver of a forwarded channel closed but never saw end-of-stream ({} received, {ok_count} sends completed)", got.len()));
+    }
+    if got.len() != ok_count {
+        let f = if fwd.is_finished() { format!("{:?}", fwd.await.ok()) } else { "running".into() };
+        return (sig, format!("FAIL: C11 over a forwarding hop {ok_count} sends completed at the origin before it learned of the close, but the closed receiver obtained {} messages before end-of-stream (forwarder: {f})", got.len()));
+    }
+    if let Some((_, Err(e))) = results.iter().find(|(_, r)| r.is_err()) {
+        if !matches!(e, SendError::Closed { gracefully: true }) {
+            return (sig, format!("FAIL: C11 send at the origin after the close of the final receiver failed with {e:?} instead of Closed{{gracefully: true}}"));
+        }
+    }
+    (sig, "ok".into())
+}
+
 /// C11: a stream of messages with a close / drop at a chosen position.
 async fn closing(r: &mut Rng) -> (String, String) {
     let ca = cfg(r, None);
-    let cb = cfg(r, None);
+    let mut cb = cfg(r, None);
+    // (for the cancelled-close kind, chosen below, B's event queue has to be small; harmless otherwise)
+    // (no extra random draw here, so that recorded seeds keep their meaning)
+    let small_queue = cb.shared_send_queue == 1;
+    if small_queue {
+        cb.transport_send_queue = 1;
+    }
     let mut p = conn::connect(ca, cb).await;
-    let ((mut tx, _ra), (_tb, mut rx)) = conn::open_port(&mut p).await;
+    let ((mut tx, mut ra_fill), (mut tb_fill, mut rx)) = conn::open_port(&mut p).await;
+    let p_net = p.net.clone();
     let n = r.range(1, 8) as usize;
     let pos = r.below(n as u64 + 1) as usize;
     // 0: receiver closes after pos, 1: receiver dropped after pos, 2: all senders dropped at the end,
@@ -404,6 +516,12 @@ async fn closing(r: &mut Rng) -> (String, String) {
     //    the receive buffer holds, while the closed receiver keeps receiving: everything must arrive, then end-of-stream
     //    (drawn after the other choices, so that recorded seeds of kinds 0-3 keep their meaning)
     let kind = if kind == 0 && r.chance(1, 2) { 4 } else { kind };
+    // 5: forwarding hop (separate scenario); 6: like 0, but the first close() is cancelled while it waits for a slot of the
+    //    full event queue and then repeated (drawn after the other choices as well)
+    if kind == 1 && r.chance(1, 3) {
+        return closing_forward(r).await;
+    }
+    let cancelled_close = kind == 0 && small_queue;
     let mut n = n;
     if kind == 4 {
         for i in 0..r.range(10, 60) as usize {
@@ -447,6 +565,22 @@ async fn closing(r: &mut Rng) -> (String, String) {
                 }
                 if kind == 0 || kind == 4 {
                     if std::env::var("VH_DEBUG").is_ok() { eprintln!("closing..."); }
+                    if cancelled_close {
+                        // B cannot write for a while and its one-slot event queue is full: close() has to wait; it is
+                        // cancelled (as by a timeout) and repeated when the link works again
+                        p_net.b2a.set_sink_ready(false);
+                        for _ in 0..6 {
+                            let _ = tb_fill.try_send(&Bytes::from_static(b"f"));
+                            quiesce().await;
+                        }
+                        let _ = rx.close().now_or_never();
+                        quiesce().await;
+                        p_net.b2a.set_sink_ready(true);
+                        for _ in 0..3 {
+                            quiesce().await;
+                            let _ = recv_all_now(&mut ra_fill).await;
+                        }
+                    }
                     rx.close().await;
                     if std::env::var("VH_DEBUG").is_ok() { eprintln!("closed"); }
                 } else {
@@ -552,6 +686,38 @@ async fn faults(r: &mut Rng) -> (String, String) {
     let sig = format!("faults:k{kind}:{}", if sub_ms { "subms" } else { "ms" });
     let ca = cfg(r, Some(timeout));
     let mut cb = cfg(r, Some(timeout));
+    if kind < 6 && r.chance(1, 8) {
+        // the fault hits the handshake: one direction is silent (its writer never becomes ready, or its frames vanish) while
+        // the other one works; creating the multiplexer must fail with a timeout on BOTH sides within the configured time
+        let sig = format!("faults:handshake:{}", if sub_ms { "subms" } else { "ms" });
+        let net = crate::transport::Net::new(true);
+        let variant = r.below(2);
+        if variant == 0 {
+            net.a2b.set_sink_ready(false);
+        } else {
+            net.a2b.silence_after_now();
+        }
+        let a = tokio::spawn(chmux::ChMux::new(ca, net.a2b.sink(), net.b2a.stream()));
+        let b = tokio::spawn(chmux::ChMux::new(cb, net.b2a.sink(), net.a2b.stream()));
+        let limit = timeout.max(Duration::from_millis(1)) * 3 + Duration::from_millis(10);
+        tokio::time::sleep(limit).await;
+        quiesce().await;
+        for (name, t) in [("A (whose outgoing direction is stalled)", a), ("B", b)] {
+            if variant == 1 && name != "B" {
+                // A's frames are accepted by its transport and vanish: A cannot know; only B has to notice
+                continue;
+            }
+            if !t.is_finished() {
+                return (sig, format!("FAIL: C06 creating multiplexer {name} still hangs {limit:?} after the start although the connection timeout is {timeout:?} (handshake variant {variant})"));
+            }
+            match t.await {
+                Ok(Err(_)) => {}
+                Ok(Ok(_)) => return (sig, format!("FAIL: C06 handshake of {name} succeeded over a silent direction")),
+                Err(_) => return (sig, "FAIL: C06 panic during the handshake".into()),
+            }
+        }
+        return (sig, "ok".into());
+    }
     if kind == 6 && r.chance(2, 3) {
         // the endpoints configure different timeouts (or one of them none): each must ping at the rate the OTHER one needs
         cb.connection_timeout = *r.pick(&[None, Some(Duration::from_millis(7)), Some(Duration::from_millis(300)), Some(Duration::from_secs(60))]);
@@ -654,7 +820,31 @@ async fn faults(r: &mut Rng) -> (String, String) {
     if let Ok(Ok(())) = accept_task.await {
         return (sig, "FAIL: C06 pending accept returned a port or a clean end after the fault".into());
     }
-    // operations started afterwards fail as well
+    // operations started afterwards fail as well -- and keep failing: a receiver whose remote sender was never dropped
+    // must not turn the lost connection into an end-of-stream on a later call
+    {
+        let mut errors = 0;
+        for _ in 0..60 {
+            // (awaited up to quiescence: returning credits may take a helper task's turn)
+            match tokio::time::timeout(Duration::from_nanos(1), rb.recv()).await.ok() {
+                Some(Ok(Some(_))) => {
+                    if errors > 0 {
+                        return (sig, "FAIL: C06 a receiver delivered data after it had reported the connection failure".into());
+                    }
+                }
+                Some(Ok(None)) => {
+                    return (sig, format!("FAIL: C06 a receiver reports end-of-stream after the connection failed ({errors} errors reported before), although its remote sender was never dropped"));
+                }
+                Some(Err(_)) => {
+                    errors += 1;
+                    if errors >= 3 {
+                        break;
+                    }
+                }
+                None => return (sig, "FAIL: C06 recv is pending after the dispatcher ended".into()),
+            }
+        }
+    }
     if a_client.connect().now_or_never().map(|r| r.is_ok()).unwrap_or(true) {
         // a connect that stays pending or succeeds after the dispatcher ended
         quiesce().await;
@@ -1016,11 +1206,13 @@ async fn isolation(r: &mut Rng) -> (String, String) {
 ///      requesting endpoint are dropped: no protocol error, the listener gets every request, then the end
 async fn answers(r: &mut Rng) -> (String, String) {
     use remoc::chmux::PortsExhausted;
+    // (variant 3 is drawn separately so that recorded seeds of variants 0-2 keep their meaning)
     let variant = r.below(3);
     let mut ca = cfg(r, None);
     let mut cb = cfg(r, None);
     ca.max_ports = 100;
     cb.max_ports = 100;
+    let variant = if r.chance(1, 4) { 3 } else { variant };
     match variant {
         0 => {
             cb.shared_send_queue = 1;
@@ -1109,6 +1301,68 @@ async fn answers(r: &mut Rng) -> (String, String) {
                 _ => return (sig, format!("FAIL: C10 connect answered late resolved as {res:?}")),
             }
             drop(keep);
+            (sig, "ok".into())
+        }
+        3 => {
+            //   3: connect requests are abandoned (their futures dropped) while the remote listener is idle; however many
+            //      are issued, the number of unanswered requests on the wire never exceeds the queue length the peer
+            //      advertised, and the connection survives
+            use remoc::chmux::PortsExhausted;
+            let q = r.range(1, 3) as u16;
+            cb.connect_queue = q;
+            ca.ports_exhausted = PortsExhausted::Fail;
+            let wait = r.chance(1, 2);
+            let total = q as usize + r.range(2, 6) as usize;
+            let sig = format!("answers:abandoned:q{q}:{}", if wait { "wait" } else { "nowait" });
+            let mut p = conn::connect(ca, cb).await;
+            let seen0 = p.net.a2b.log_len();
+            let mut issued = 0;
+            for _ in 0..total {
+                // the request future is polled once and dropped; so is the connect it returns
+                match p.a_client.connect_ext(None, wait).now_or_never() {
+                    Some(Ok(c)) => {
+                        issued += 1;
+                        drop(c);
+                    }
+                    _ => {}
+                }
+                quiesce().await;
+            }
+            for _ in 0..3 {
+                quiesce().await;
+            }
+            let frames = p.net.a2b.log_from(seen0);
+            let opens = conn::group(&frames).iter().filter(|m| matches!(m.msg, remoc::chmux::verif::MultiplexMsg::OpenPort { .. })).count();
+            if opens > q as usize {
+                return (sig, format!("FAIL: C10 {opens} unanswered open requests are on the wire although the peer advertised a connect queue of {q} ({issued} connects issued and abandoned)"));
+            }
+            if p.mux_a.is_finished() || p.mux_b.is_finished() {
+                return (sig, "FAIL: C10 the connection failed after connect requests were abandoned".into());
+            }
+            // the listener answers what it got; afterwards new requests go through again
+            let mut guard = 0;
+            while let Some(Ok(Some(req))) = p.b_listener.inspect().now_or_never() {
+                drop(req);
+                quiesce().await;
+                guard += 1;
+                if guard > 20 {
+                    break;
+                }
+            }
+            for _ in 0..3 {
+                quiesce().await;
+            }
+            let c = p.a_client.clone();
+            let task = tokio::spawn(async move { c.connect().await.map(|_| ()) });
+            quiesce().await;
+            let acc = p.b_listener.accept();
+            let got = tokio::time::timeout(Duration::from_secs(5), acc).await;
+            for _ in 0..3 {
+                quiesce().await;
+            }
+            if !task.is_finished() || !matches!(got, Ok(Ok(Some(_)))) {
+                return (sig, "FAIL: C10 after the abandoned requests were answered a new connect does not go through".into());
+            }
             (sig, "ok".into())
         }
         _ => {
